@@ -50,6 +50,7 @@ type rewriter struct {
 	n     int
 	used  bool // vrt referenced in this file
 	fname string
+	fine  bool // insert plain-store scheduling points (packages with shared memory)
 }
 
 func (r *rewriter) tmp(p string) *ast.Ident { r.n++; return ast.NewIdent(fmt.Sprintf("_v%s%d", p, r.n)) }
@@ -184,7 +185,76 @@ func (r *rewriter) rewriteStmt(s ast.Stmt) ast.Stmt {
 	return nil
 }
 
+// sharedStore reports whether an assignment target may be memory shared between goroutines:
+// a dereference, a field reached through a pointer, or a slice element.
+func (r *rewriter) sharedStore(e ast.Expr) bool {
+	for {
+		switch x := e.(type) {
+		case *ast.ParenExpr:
+			e = x.X
+		case *ast.StarExpr:
+			return true
+		case *ast.SelectorExpr:
+			if tv, ok := r.info.Types[x.X]; ok && tv.Type != nil {
+				if _, isPtr := tv.Type.Underlying().(*types.Pointer); isPtr {
+					return true
+				}
+			}
+			e = x.X
+		case *ast.IndexExpr:
+			if tv, ok := r.info.Types[x.X]; ok && tv.Type != nil {
+				switch tv.Type.Underlying().(type) {
+				case *types.Slice, *types.Pointer:
+					return true
+				case *types.Map:
+					return false
+				}
+			}
+			e = x.X
+		default:
+			return false
+		}
+	}
+}
+
+// plainStores inserts a (normally inactive) scheduling point before every plain store to possibly
+// shared memory, so that "fine" explorations can preempt between an atomic read and a plain write.
+func (r *rewriter) plainStores(f *ast.File) {
+	astutil.Apply(f, func(c *astutil.Cursor) bool {
+		if c.Index() < 0 {
+			return true
+		}
+		switch c.Parent().(type) {
+		case *ast.BlockStmt, *ast.CaseClause, *ast.CommClause:
+		default:
+			return true
+		}
+		shared := false
+		switch n := c.Node().(type) {
+		case *ast.AssignStmt:
+			if n.Tok == token.DEFINE {
+				return true
+			}
+			for _, l := range n.Lhs {
+				if r.sharedStore(l) {
+					shared = true
+				}
+			}
+		case *ast.IncDecStmt:
+			shared = r.sharedStore(n.X)
+		}
+		if shared {
+			r.used = true
+			c.InsertBefore(&ast.ExprStmt{X: call(vrtSel("PlainStore"))})
+		}
+		return true
+	}, nil)
+}
+
 func (r *rewriter) file(f *ast.File) {
+	if r.fine {
+		r.plainStores(f)
+	}
 	// statements first (post-order so nested constructs are rewritten before their parents move them)
 	astutil.Apply(f, nil, func(c *astutil.Cursor) bool {
 		switch n := c.Node().(type) {
@@ -304,7 +374,7 @@ func main() {
 			conf.Check(p.path, fset, files, info)
 			os.Chdir(cwd)
 			for i, f := range files {
-				r := &rewriter{fset: fset, info: info, fname: names[i]}
+				r := &rewriter{fset: fset, info: info, fname: names[i], fine: p.dir != "nodetable"}
 				r.file(f)
 				if r.used {
 					// drop free-floating comments of rewritten files (positions are meaningless after rewriting);
